@@ -22,9 +22,21 @@ type statCall struct {
 	ntags  int
 }
 
-type recStatter struct{ calls []statCall }
+type recStatter struct {
+	calls     []statCall
+	panicNext bool // the next client call is recorded and then panics (a client that fails by panicking), once
+}
 
-func (r *recStatter) add(c statCall) error { r.calls = append(r.calls, c); return nil }
+type statterPanic struct{}
+
+func (r *recStatter) add(c statCall) error {
+	r.calls = append(r.calls, c)
+	if r.panicNext {
+		r.panicNext = false
+		panic(statterPanic{})
+	}
+	return nil
+}
 func (r *recStatter) Inc(n string, v int64, rate float32, t ...cactus.Tag) error {
 	return r.add(statCall{"Inc", n, v, 0, "", rate, len(t)})
 }
@@ -353,6 +365,10 @@ func c18SequenceJob(tier string) *SeqJob {
 	for _, c := range calls {
 		alphabet = append(alphabet, fmt.Sprintf("bucket %s (%v,%v] dur=%v", c.name, c.lo, c.hi, c.dur))
 	}
+	// the environment deviates: the statsd client panics in the call it is handed (after taking it), the application
+	// recovers; the bucket reports that follow go out under their own names all the same
+	failing := map[int]int{len(calls): 0, len(calls) + 1: 4}
+	alphabet = append(alphabet, alphabet[0]+" and the client panics", alphabet[4]+" and the client panics")
 	depth := tierInt(tier, 3, 4)
 	rate := float32(0)
 	exec := func(hist []int) (cl, det, key string, steps int) {
@@ -360,13 +376,31 @@ func c18SequenceJob(tier string) *SeqJob {
 			st := &recStatter{}
 			rep := tstatsd.NewReporter(st, tstatsd.Options{SampleRate: rate})
 			for i, op := range hist {
+				fail := false
+				if k, ok := failing[op]; ok {
+					op, fail = k, true
+					st.panicNext = true
+				}
 				c := calls[op]
 				var want string
+				func() {
+					defer func() {
+						if r := recover(); r != nil {
+							if _, ok := r.(statterPanic); !ok || !fail {
+								panic(r)
+							}
+						}
+					}()
+					if c.dur {
+						rep.ReportHistogramDurationSamples(c.name, nil, nil, time.Duration(c.lo), time.Duration(c.hi), 1)
+					} else {
+						rep.ReportHistogramValueSamples(c.name, nil, nil, c.lo, c.hi, 1)
+					}
+				}()
+				st.panicNext = false
 				if c.dur {
-					rep.ReportHistogramDurationSamples(c.name, nil, nil, time.Duration(c.lo), time.Duration(c.hi), 1)
 					want = c.name + "." + refDurationBound(time.Duration(c.lo)) + "-" + refDurationBound(time.Duration(c.hi))
 				} else {
-					rep.ReportHistogramValueSamples(c.name, nil, nil, c.lo, c.hi, 1)
 					want = c.name + "." + refValueBound(c.lo, 6) + "-" + refValueBound(c.hi, 6)
 				}
 				steps++
